@@ -332,6 +332,14 @@ def gen_cases(tier: str, seed: int) -> List[Dict]:
     ]
     for names, dv, de in multi:
         add("multi", names, spec("d", names, dv, (), A), dividend=spec("n", names, de, (), A))
+    # indeterminates whose names sort differently as text and by index (q2, q10), the operands declaring different subsets
+    for names, dnames, dv, de in [
+        (("q0", "q2", "q10"), ("q10",), [[1], [0]], [[1, 0, 1], [0, 1, 1], [0, 0, 0]]),
+        (("q0", "q2", "q10"), ("q0", "q10"), [[1, 1], [0, 0]], [[2, 1, 1], [1, 0, 2], [0, 1, 0]]),
+        (("q2", "q10"), ("q2",), [[1]], [[1, 1], [2, 0], [0, 1]]),
+        (("q9", "q10", "q11"), ("q10", "q11"), [[1, 0], [0, 1]], [[0, 1, 1], [1, 0, 0]]),
+    ]:
+        add("multi-names", names, spec("d", dnames, dv, (), 1, lit=0.75), dividend=spec("n", names, de, (), 2))
     # divisors with several incomparable top terms (the q1**2 - 2*q0 pattern)
     inc = [
         (("q0", "q1"), [[1, 0], [0, 2]], [[1, 2]]),
